@@ -21,6 +21,14 @@ RECURSIVE SumUnw(_, _)
 SumUnw(S, p) == IF S = {} THEN 0 ELSE LET a == CHOOSE y \in S : TRUE IN SumSeq(held[a], p) + SumUnw(S \ {a}, p)
 LvHi(p) == lvl[p] + SumAmt({x \in rel : x.p = p}) + SumUnw(unw, p)
 
+\* `x <rel> v` for a level x known to lie in lo..hi: certainly (sure) / possibly true
+RelIv(lo, hi, op, v, sure) ==
+  CASE op = "ge" -> (IF sure THEN lo ELSE hi) >= v
+    [] op = "gt" -> (IF sure THEN lo ELSE hi) > v
+    [] op = "le" -> (IF sure THEN hi ELSE lo) <= v
+    [] op = "lt" -> (IF sure THEN hi ELSE lo) < v
+    [] op = "eq" -> IF sure THEN lo = v /\ hi = v ELSE lo <= v /\ v <= hi
+    [] OTHER      -> IF sure THEN hi < v \/ lo > v ELSE ~(lo = v /\ hi = v)
 \* independent evaluator of condition expressions over the observed atom values
 \* sure = TRUE: the condition certainly holds; sure = FALSE: it possibly holds (they differ only for resource levels
 \* while a borrow block is being entered or left)
@@ -36,7 +44,7 @@ EvM(c, fl, dn, t, sure) ==
     [] c[1] = "eq"    -> t = c[2]
     [] c[1] = "inst"  -> TRUE
     [] c[1] = "etern" -> FALSE
-    [] c[1] = "lvl"   -> IF c[2] \in taint THEN ~sure ELSE (IF sure THEN LvLo(c[2]) ELSE LvHi(c[2])) >= c[3]
+    [] c[1] = "lvl"   -> IF c[2] \in taint THEN ~sure ELSE RelIv(LvLo(c[2]), LvHi(c[2]), c[4], c[3], sure)
     [] c[1] = "all"   -> \A i \in 1..Len(c[2]) : EvM(c[2][i], fl, dn, t, sure)
     [] c[1] = "any"   -> \E i \in 1..Len(c[2]) : EvM(c[2][i], fl, dn, t, sure)
     [] OTHER -> FALSE
@@ -44,7 +52,7 @@ Ev(c, fl, dn, t) == EvM(c, fl, dn, t, TRUE)
 Poss(c, fl, dn, t) == EvM(c, fl, dn, t, FALSE)
 Nested(c) == c[1] \in {"all", "any"} /\ \E i \in 1..Len(c[2]) : c[2][i][1] \in {"all", "any"}
 CondOf(e) == IF e.op = "await_f" THEN (IF e.v THEN <<"flag", e.f>> ELSE <<"nflag", e.f>>)
-             ELSE IF e.op = "await_lvl" THEN <<"lvl", e.p, e.v>> ELSE e.c
+             ELSE IF e.op = "await_lvl" THEN <<"lvl", e.p, e.v, F(e, "rel", "ge")>> ELSE e.c
 
 Fail(c) == bad' = c /\ UNCHANGED <<flg, done, now, waits>>
 DropLast1(q) == SubSeq(q, 1, Len(q) - 1)
